@@ -98,7 +98,7 @@ def check_bind(w):
     if w['pos'] is not None:
         parts.append('(%s)' % w['pos'])
     exp['pos'] = w['pos']
-    parts.append('{%s}' % w['third']); exp['third'] = w['third']
+    parts.append('{%s}' % w['third']); exp['third'] = w['third'].replace('{', '').replace('}', '')      # braces group, they are not characters of the string
     src = ''.join(parts) + 'REST'
     t = fresh(src)
     m = _sig()
@@ -113,7 +113,7 @@ def check_bind(w):
 def gen_bind(rng):
     ws = ['a', 'bc', 'x y', 'q[r]', 'u(v)', 'w]']
     return dict(star=rng.random() < 0.5, opt=rng.choice([None, 'o', 'p q', '{[}', 'a[b]c', '{]}']), first=rng.choice(ws), second=rng.randrange(0, 99),
-                pos=rng.choice([None, '1,2', 'z']), third=rng.choice(['s', 't u']))
+                pos=rng.choice([None, '1,2', 'z']), third=rng.choice(['s', 't u', 'a{b}c', '{xy}z', 'k{}']))
 
 
 def ref_group(text, o, c):
